@@ -480,6 +480,18 @@ def bounded(tier, seed):
                 lev += 1
                 if eqtab[(i, j)] and eqtab[(j, k)] and not eqtab[(i, k)] and len(lfails) < 3:
                     lfails.append({"id": "bounded:equality-is-transitive", "input": f"{EXPRS[i]} == {EXPRS[j]} == {EXPRS[k]}", "observed": f"{EXPRS[i]} != {EXPRS[k]}", "expected": "equal"})
+    # a list that was used as a probe / element / key before and is then changed by element assignment is, from then on, the value it is now
+    for src, exp in (("def p = [1, 2]; def t = p in <<[1, 2]>>; p[0] = 5; [t, p == [5, 2], p in <<[5, 2]>>, [5, 2] in <<p>>, length(<<p, [5, 2]>>)]", "[TRUE, TRUE, TRUE, TRUE, 1]"),
+                     ("def p = [1, 2]; def m = <<<[1, 2] => 'old', [5, 2] => 'new'>>>; def t = m[p]; p[0] = 5; [t, m[p]]", "['old', 'new']"),
+                     ("def p = [[1], 2]; def t = p in <<[[1], 2]>>; append(p[0], 9); [t, p in <<[[1, 9], 2]>>, p in <<[[1], 2]>>]", "[TRUE, TRUE, FALSE]"),
+                     ("def q = <<1, 2>>; def t = q in << <<1, 2>> >>; append(q, 3); [t, q in << <<1, 2, 3>> >>]", "[TRUE, TRUE]")):
+        lev += 1
+        try:
+            obs = str(I.interpret(src, "-"))
+        except Exception as e:
+            obs = repr(e)
+        if obs != exp and len(lfails) < 3:
+            lfails.append({"id": "bounded:a-changed-value-is-looked-up-as-the-value-it-is-now", "input": src, "observed": obs, "expected": exp})
     r1 = BoundedResult("equality through the language (real interpreter): operators, sets, maps, membership, removal, containers agree; equivalence laws",
                        f"all ordered pairs and triples of {n} expressions (neighbouring decimals, ints beyond 2^53, every kind)", lev, lev, lfails,
                        [{"x": "0.1 + 0.2", "y": "0.3"}], "the operators reach the value equality through natives (equals / not_equals)", time.time() - t1)
